@@ -99,6 +99,17 @@ def listShapeMembers (sg : Graph) : Except Failure (List Term) :=
   | .error e => .error e
   | .ok ls => .ok ls.flatten
 
+/-- follows rdf:rest from `n`; `true` when the chain does not end within `fuel` steps -/
+def restChainLoops (sg : Graph) : Nat → Term → Bool
+  | 0, _ => true
+  | fuel+1, n => match (sg.objects n rdfRest).head? with
+    | none => false
+    | some r => restChainLoops sg fuel r
+
+/-- `ShapesGraph._check_lists`: some rdf:rest chain of the shapes graph loops back into itself -/
+def hasLoopingList (sg : Graph) : Bool :=
+  (dedup (sg.subjectsOfPred rdfRest)).any fun n => restChainLoops sg (sg.length + 1) n
+
 /-- `_build_node_shape_cache` (the shapes graph already contains the system triples) -/
 def buildShapes (sg : Graph) : Except Failure (List Shape) :=
   let definedNode := dedup (sg.subjects rdfType shNodeShape)
